@@ -22,6 +22,15 @@ CLAIMED = {
             "ghost 'visited' set, so the result is independent of Go's map order.", "5 (C09)", ""),
 }
 
+CLAIMED["C06"] = ("Proof, for every int64/uint64 value, byte length and rune count and every list of integer range parts, that "
+    "ValidateIntRestrictions / ValidateUintRestrictions / ValidateBinaryRestrictions accept exactly the values inside the union of the range (length) "
+    "parts (everything when unrestricted), and that ValidateStringRestrictions rejects every string whose character count is outside the length space; "
+    "the goyang Number comparison functions they depend on (Less, Equal, Trunc, frac, pow10, FromInt, FromUint) are verified from the module-cache "
+    "source, not assumed. fixYangRegexp is proved to wrap every non-empty pattern not starting with '^' in ^( ... )$ whatever characters it contains "
+    "(rune-level loop invariant), and SanitizedPattern to prefer POSIX patterns and otherwise map fixYangRegexp over the patterns in order. "
+    "Not covered: regular-expression semantics itself, decimal64 ranges, and that every sanitised pattern is applied (the pattern loop is only proved "
+    "not to accept a string outside the length space).", "5 (C06)", "Known finding: patterns starting with '^' are not grouped (KNOWN_FINDINGS.txt).")
+
 NA = {
     "C01": "RFC7951 JSON round-trip is a relation between two reflection walkers (structJSON/jsonValue vs unmarshalStruct/unmarshalList) over arbitrary generated struct types; no function-level contract within this verifier's reach carries it (no reflect memory model). Scalar kernels are decided under C18/C19 where claimed.",
     "C02": "gNMI notification round-trip lives in the reflection walkers (findUpdatedLeaves, retrieveNode); not expressible as contracts the VC generator can check.",
@@ -41,7 +50,6 @@ NA = {
 PENDING = {
     "C03": "contracts not completed yet (diff comparison kernel)",
     "C05": "contracts not completed yet (uniqueSlices / orderedMapKeysMergeable kernels)",
-    "C06": "contracts not completed yet (range/length kernels)",
     "C07": "contracts not completed yet (validateListAttr and dispatch kernels)",
     "C08": "contracts not completed yet (path string composition lemma + bounded element round trip)",
     "C11": "contracts not completed yet (frame contracts)",
